@@ -21,6 +21,14 @@ ALIASES = {
 
 PART_HEUR = [("contracts.partition_heur", "greedy"), ("contracts.partition_heur", "roundrobin")]
 FIT = [("contracts.packing_fit", "first_fit_online"), ("contracts.packing_fit", "best_fit_online"), ("contracts.packing_fit", "ffd"), ("contracts.packing_fit", "bfd")]
+BINNERS = None
+
+
+def binners():
+    from contracts import binners as B
+    return list(B.ALL)
+
+
 COVER = [("contracts.covering", "decreasing_subroutine"), ("contracts.covering", "cover_decreasing"), ("contracts.covering", "twothirds")]
 
 
@@ -65,7 +73,7 @@ def replay_and_crosscheck(rep, prop, res, obs):
     rep.extra["traces_validated_against_impl"] = rep.extra.get("traces_validated_against_impl", 0) + len(res.xchecks) - bad
 
 
-def run_contracts(rep, prop, crefs, level="quick", with_lemmas=False):
+def run_contracts(rep, prop, crefs, level="quick", with_lemmas=False, also=()):
     """verify every contract and add the obligations that carry `prop`:
        every invariant / precondition / exception obligation of the function (the proof of any postcondition rests on them) and the
        postconditions and step assertions tagged with this property (or untagged).  A failing obligation tagged with ANOTHER property
@@ -76,7 +84,7 @@ def run_contracts(rep, prop, crefs, level="quick", with_lemmas=False):
         replay_and_crosscheck(rep, prop, res, obs)
         for ob in obs:
             m = _TAG.search(ob.id)
-            foreign = m is not None and m.group(1) != prop
+            foreign = m is not None and m.group(1) != prop and m.group(1) not in also
             if foreign and ("/post/" in ob.id or "/call:" in ob.id or "/raise/" in ob.id):
                 continue
             if foreign and ob.status == REFUTED:
